@@ -13,10 +13,10 @@ import (
 )
 
 // refStore is a Redis-faithful implementation of the primitive handler
-// operations.  Expiry is kept as the time to live that was last set (x, in
-// seconds) plus the deadline: nothing ever expires during a run (programs use
-// long times), but which commands keep, clear, set or move a key's expiry is
-// faithful.  It is the handler for C12/C16: the framework's
+// operations.  Expiry runs on a virtual clock: x is a key's remaining time to
+// live in ms, and the clock only advances by the scripted pauses of a scenario
+// (advance), exactly like RedisModel's; which commands keep, clear, set or
+// move a key's expiry, and that an expired key is gone, is faithful.  It is the handler for C12/C16: the framework's
 // derived commands run on top of it; its own behaviour is validated against
 // RedisModel.tla in the same traces.  One mutex serialises primitives (a
 // primitive is atomic, as in Redis; commands composed of several primitives
@@ -38,11 +38,28 @@ type entry struct {
 	list []string
 	set  map[string]bool
 	zset map[string]float64
-	x    int       // time to live in seconds as last set; 0 = persistent
-	dl   time.Time // the deadline that goes with x
+	x    int // remaining time to live in ms on the virtual clock; 0 = persistent
 }
 
-func secs(d time.Duration) int { return int((d + 500*time.Millisecond) / time.Second) }
+func ms(d time.Duration) int { return int(d / time.Millisecond) }
+
+// advance moves the virtual clock: keys whose time to live has run out are gone.
+func (r *refStore) advance(by int) {
+	r.mu.Lock()
+	defer r.mu.Unlock()
+	for _, d := range r.dbs {
+		for k, e := range d {
+			if e.x == 0 {
+				continue
+			}
+			if e.x <= by {
+				delete(d, k)
+			} else {
+				e.x -= by
+			}
+		}
+	}
+}
 
 func newRefStore() *refStore { return &refStore{dbs: map[int]map[string]*entry{}} }
 
@@ -146,11 +163,12 @@ func (r *refStore) Expire(conn *redis.Conn, key string, opt redis.ExpireOption) 
 		return ints(0), nil
 	}
 	now := time.Now()
-	// the framework computed opt.Time = (its own now) + n seconds a moment ago: rounding the remaining time UP recovers n
-	// unless a whole second passed between the two clock readings
-	t := int((opt.Time.Sub(now) + time.Second - time.Nanosecond) / time.Second)
-	if opt.Time.Sub(now) <= 0 {
-		t = 0
+	// the framework computed opt.Time = (its own now) + n seconds a moment ago: rounding the remaining time UP to a
+	// whole second recovers n unless a whole second passed between the two clock readings
+	rem := opt.Time.Sub(now)
+	t := int((rem+time.Second-time.Nanosecond)/time.Second) * 1000
+	if rem <= 0 {
+		t = int(rem/time.Second) * 1000 // zero or negative: the key is deleted
 	}
 	cur := e.x // 0 = persistent = an infinite time to live for GT / LT
 	if (opt.NX && cur != 0) || (opt.XX && cur == 0) || (opt.GT && (cur == 0 || t <= cur)) || (opt.LT && cur != 0 && t >= cur) {
@@ -160,7 +178,7 @@ func (r *refStore) Expire(conn *redis.Conn, key string, opt redis.ExpireOption) 
 		delete(d, key)
 		return ints(1), nil
 	}
-	e.x, e.dl = t, opt.Time
+	e.x = t
 	return ints(1), nil
 }
 
@@ -224,7 +242,7 @@ func (r *refStore) TTL(conn *redis.Conn, key string) (*redis.Message, error) {
 	if e.x == 0 {
 		return ints(-1), nil
 	}
-	return ints(secs(time.Until(e.dl))), nil
+	return ints((e.x + 500) / 1000), nil
 }
 
 func (r *refStore) Scan(conn *redis.Conn, cursor int, opt redis.ScanOption) (*redis.Message, error) {
@@ -261,15 +279,15 @@ func (r *refStore) Set(conn *redis.Conn, key string, val string, opt redis.SetOp
 	now := time.Now()
 	switch {
 	case opt.KEEPTTL && exists:
-		ne.x, ne.dl = old.x, old.dl
+		ne.x = old.x
 	case opt.EX > 0:
-		ne.x, ne.dl = secs(opt.EX), now.Add(opt.EX)
+		ne.x = ms(opt.EX)
 	case opt.PX > 0:
-		ne.x, ne.dl = secs(opt.PX), now.Add(opt.PX)
+		ne.x = ms(opt.PX)
 	case !opt.EXAT.IsZero():
-		ne.x, ne.dl = secs(opt.EXAT.Sub(now)), opt.EXAT
+		ne.x = ms(opt.EXAT.Sub(now))
 	case !opt.PXAT.IsZero():
-		ne.x, ne.dl = secs(opt.PXAT.Sub(now)), opt.PXAT
+		ne.x = ms(opt.PXAT.Sub(now))
 	}
 	d[key] = ne
 	switch {
